@@ -32,6 +32,7 @@ EXPLANATION = (
   ' (FIN-links) push_child and remove_child, interpreted on explicit little heaps (1..4 children, removal at every position, one more push), leave the first / last / previous / next / parent fields describing one consistent doubly linked list and the removed child fully detached;'
   ' (LOOP-break) no loop over the items of a collection is left by a branch that does nothing but `break` on a test about the item (end-of-input sentinels, flags set in the loop body and searches whose variable is read afterwards excepted): an item that is to be skipped does not end the processing of the items after it;'
   + common.SHARED_CLAUSES['validators'] + common.SHARED_CLAUSES['truthy']
+  + common.SHARED_CLAUSES['rubykids']
 )
 RULE_TEXT = "one instance per element kind, link-field store, guard, mutator, store site, registry writer"
 UNDECIDED = ["arbitrary call histories as such (the rules are the per-operation preconditions, not the induction)",
@@ -427,7 +428,7 @@ def _is_registered_region_test(t) -> bool:
 
 
 def run(ctx):
-  common.check_shared_helpers(ctx, validators=True, truthy_modules=["ttconv.model", "ttconv.isd"])
+  common.check_shared_helpers(ctx, validators=True, truthy_modules=["ttconv.model", "ttconv.isd"], rubykids=True)
   ix = ctx.ix
   mf = ModelFacts(ix)
   shared = {"mf": mf}
